@@ -140,6 +140,9 @@ def zero_first_scenario(rng: random.Random) -> Scenario:
         m = rng.choice(jobs[j][0][0])
         tr.take(j)
         lines += [f"disp {j} 0 {m}", "snap", "q is_complete"]
+        if rng.random() < 0.5 and not tr.done():
+            pj, pp, pm = gen.gen_valid_request(rng, tr)
+            lines += [f"peek {pj} {pp} {pm}", "snap"]       # a copy taken right after zero-duration operations (ties everywhere)
     lines += ["reset", "snap", "q num_scheduled"]
     tr.reset()
     n_acc = 0
@@ -148,6 +151,9 @@ def zero_first_scenario(rng: random.Random) -> Scenario:
         tr.take(j)
         n_acc += 1
         lines += [f"disp {j} {p} {m}", "snap", "q is_complete"]
+        if rng.random() < 0.3 and not tr.done():
+            pj, pp, pm = gen.gen_valid_request(rng, tr)
+            lines += [f"peek {pj} {pp} {pm}", "snap"]
     lines += ["q makespan", "q num_scheduled"]
     return Scenario(lines, {"family": family + "+zero_first", "filter": "none" if f is None else "+".join(f) or "empty-composite",
                             "style": "zero_first", "flexible": gen.is_flexible(jobs), "zero_dur": True, "accepted": n_acc,
